@@ -1014,8 +1014,10 @@ setup_properties(const InterrogateFunction &ifunc, InterfaceMaker *interface_mak
     break;
 
   case T_constructor:
-    if (_ftype->_flags & CPPFunctionType::F_copy_constructor) {
-      // It's a copy constructor.
+    if ((_ftype->_flags & CPPFunctionType::F_copy_constructor) != 0 &&
+        _parameters.size() == 1) {
+      // It's a copy constructor (called without any of the additional
+      // defaulted parameters that it might have).
       _flags |= F_copy_constructor;
 
     } else if (_ftype->_flags & CPPFunctionType::F_move_constructor) {
